@@ -235,9 +235,14 @@ func vC16Sample(n int) {
 				next++
 			}
 		}
-		vAdvance(d)
-		vAdvance(1)
-		vQuiesce()
+		flushed := vChoice("flush"+vItoa(round), 2) == 1
+		if flushed {
+			// let one more tick pass so that nothing is left pending ...
+			vAdvance(d)
+			vAdvance(1)
+			vQuiesce()
+		}
+		// ... or unsubscribe while a sampled / buffered value may still be pending
 		sub.Unsubscribe()
 		vQuiesce()
 		seen := len(out.rec.evs)
@@ -263,7 +268,7 @@ func vC16Sample(n int) {
 				vAssert(out.stamps[i] > out.stamps[i-1], name+": more than one value was emitted for one tick")
 			}
 		}
-		if which == 1 {
+		if which == 1 && flushed {
 			vAssert(prev == next-1, name+": a value of the source is missing from the buffers")
 		}
 		run, blk := vLive()
